@@ -6,6 +6,7 @@ bounds: exact at module level / one-line bodies, under-estimating by the indenta
   * for pinned real modules and each of the 11 size options: len(minify(S, base + o)) <= len(minify(S, base)) for base in {all off, defaults minus o}.
 """
 import random
+import re
 import warnings
 
 from ..common import main_wrapper, sha, MachineryError
@@ -72,6 +73,7 @@ def size_job(job):
             out.append({'id': '%s|%s|%s' % (job['id'], o, bname), 'what': 'size', 'option': o, 'len_on': len(on.encode('utf-8')), 'len_off': len(off.encode('utf-8')),
                         'slack': indent_slack(on) if len(on) > len(off) and o in ('rename_locals', 'rename_globals', 'hoist_literals') else 0,
                         'adjacent': adjacent_literals(off) if len(on) > len(off) and o == 'hoist_literals' else 0,
+                        'debug_spec': bool(o in ('constant_folding', 'hoist_literals', 'rename_locals', 'rename_globals') and len(on) > len(off) and re.search(r'\{[^{}]*=(![rsa])?(:[^{}]*)?\}', off)),
                         'kind': '', 'L': 0, 'C': 0, 'refs': 0, 'old_mentions': 0, 'new_mentions': 0, 'additional': 0, 'decided': False})
     # decisions logged during the last default-options run
     del _log[:]
@@ -196,6 +198,56 @@ def site_programs():
     return out
 
 
+def fold_site_programs():
+    """foldable expressions at a few sites, among them the self-documenting f-string form f'{expr=}' (whose text is the expression)"""
+    out = []
+    for e in ('1+1', '60*60', '2**8', 'True&True', '10-20', '1024*1024*8', '7//2', '3*0.5'):
+        sites = {'assign': 'x=%s\n' % e, 'call': 'print(%s, %s)\n' % (e, e), 'default': 'def f(a=%s):\n    return a\n' % e, 'fstring': 'x=f"{%s}"\n' % e,
+                 'fstring-debug': 'x=f"{%s=}"\n' % e, 'fstring-debug-conv': 'x=f"{%s=!r:>8}"\n' % e, 'fstring-debug-two': 'x=f"{%s=} {%s=}"\n' % (e, e),
+                 'subscript': 'x=y[%s]\n' % e, 'compare': 'x=y<%s\n' % e}
+        for site, src in sorted(sites.items()):
+            out.append(('foldsite:%s:%s' % (site, e), src.encode()))
+    return out
+
+
+def library_programs():
+    """small library modules: every function is listed in __all__ (so renaming globals has little to gain), module-level imports / from-imports / builtins
+    are used r times each, and - the dimension - unrelated functions do or do not reuse those names for their own parameters and locals"""
+    out = []
+    things = [('import', 'time', 'time.time()'), ('import', 'json', 'json.dumps(1)'), ('from', 'path', 'path.join("a", "b")'), ('from', 'sep', 'sep * 2'),
+              ('builtin', 'type', 'type(1)'), ('builtin', 'isinstance', 'isinstance(1, int)'), ('builtin', 'len', 'len("ab")')]
+    for reuse in ('none', 'param', 'local', 'lambda', 'classattr'):
+        for r in (1, 2, 3):
+            for sel in ([0, 2, 4], [1, 3, 5], [0, 1], [4, 5, 6], [2, 3], list(range(7))):
+                chosen = [things[i] for i in sel]
+                lines = []
+                for kind, name, _use in chosen:
+                    if kind == 'import':
+                        lines.append('import %s' % name)
+                    elif kind == 'from':
+                        lines.append('from os import %s' % name)
+                funcs = []
+                for k, (kind, name, use) in enumerate(chosen):
+                    fn = 'use_%s' % name
+                    funcs.append(fn)
+                    lines.append('def %s():\n    return [%s]' % (fn, ', '.join([use] * r)))
+                    other = 'other_%s' % name
+                    funcs.append(other)
+                    if reuse == 'param':
+                        lines.append('def %s(%s, payload):\n    return payload, %s' % (other, name, name))
+                    elif reuse == 'local':
+                        lines.append('def %s(payload):\n    %s = payload\n    return %s, %s' % (other, name, name, name))
+                    elif reuse == 'lambda':
+                        lines.append('%s = lambda %s, payload: (payload, %s)' % (other, name, name))
+                    elif reuse == 'classattr':
+                        lines.append('class %s:\n    %s = 1\n    def method(self, value):\n        return value' % (other, name))
+                    else:
+                        lines.append('def %s(value, payload):\n    return payload, value' % other)
+                lines.insert(len([l for l in lines if l.startswith(('import', 'from'))]), '__all__ = [%s]' % ', '.join(repr(f) for f in funcs))
+                out.append(('library:%s:%d:%s' % (reuse, r, ''.join(map(str, sel))), ('\n'.join(lines) + '\n').encode()))
+    return out
+
+
 def synthetic():
     """small modules in which one literal is repeated k times - at module level, in a function, in a nested block - for every literal kind
     the hoister could consider; they make the size options' cost decisions observable one at a time"""
@@ -208,6 +260,8 @@ def synthetic():
             out.append(('synthetic:function:%s:%d' % (lit, k), ('def function_name(argument):\n    values = [%s]\n    return values, argument\nprint(function_name(1))\n' % uses).encode()))
             out.append(('synthetic:nested:%s:%d' % (lit, k), ('def function_name(argument):\n    if argument:\n        for item in argument:\n            values = [%s]\n    return argument\n' % uses).encode()))
     out += site_programs()
+    out += library_programs()
+    out += fold_site_programs()
     for name in ('argument_name', 'a', 'ab'):
         for k in (1, 2, 4, 8):
             body = ' + '.join([name] * k)
@@ -246,6 +300,8 @@ def run(args, rep):
             key = 'size|%s|%s|%s|%s' % (name.split('/')[-1], shas[name], r['option'], rid.split('|')[2])
             if 0 < r['len_on'] - r['len_off'] <= r.get('slack', 0):
                 key = 'D15:' + key       # the growth is within what the indentation of inserted assignments accounts for (known finding)
+            elif r.get('debug_spec'):
+                key = 'D43:' + key       # the expression of a self-documenting f-string field rewritten (known finding)
             elif 0 < r['len_on'] - r['len_off'] <= r.get('slack', 0) + r.get('adjacent', 0):
                 key = 'D30:' + key       # ... plus one space per literal that touched a keyword (known finding)
             what = '%s option=%s base=%s len_on=%d len_off=%d' % (name, r['option'], rid.split('|')[2], r['len_on'], r['len_off'])
@@ -261,7 +317,8 @@ def run(args, rep):
     rep.exhaustive = False
     rep.rule = ('pinned stdlib modules and the repository sources x 11 size options x 2 bases (all off; defaults minus the option): output byte lengths with the option on and off; '
                 'plus synthetic modules: one literal of 16 kinds repeated 2..20 times, and one literal at 3 / 8 sites of each of %d syntactic kinds (annotated assignment, default, '
-                'keyword, return, subscript, f-string, pattern, ...) at module level / in a function / in a method; plus up to 400 logged should_rename decisions per module; non-trivial = (module, option, base) triples whose two outputs differ in length' % len(SITES))
+                'keyword, return, subscript, f-string, pattern, ...) at module level / in a function / in a method; small library modules (everything in __all__; imports and '
+                'builtins used 1-3 times; unrelated functions reusing those names as parameters / locals / lambda parameters / class attributes, or not); plus up to 400 logged should_rename decisions per module; non-trivial = (module, option, base) triples whose two outputs differ in length' % len(SITES))
     rep.extra.update({'modules': len(jobs), 'decisions_logged': len(dec), 'size_pairs': len(records) - len(dec), 'corpus_skipped': skipped,
                       'checker_cmd': 'tlc Cost.tla (MC_Cost.cfg); tlc Trace_Size.tla over ndjson observations'})
     rep.assumptions += ['"real-world modules" = the pinned corpus; the property is a corpus observation, not a universal claim',
